@@ -46,6 +46,8 @@ struct ShutRun {
     inv_at: usize,
     ends_at: usize,
     reads_at: usize,
+    /// client bytes handed to the connection task when shutdown was requested
+    read_pos_at: usize,
     /// result of polling the shutdown future right after the request (true = Ready)
     first_poll_ready: bool,
     task_finished_at_request: bool,
@@ -78,7 +80,7 @@ fn run_with_shutdown(c: &ConnCase, b: &Built, shutdown_at: usize) -> Result<Shut
     let sflag = FlagWaker::new(false);
     let mut sfut = None;
     let mut out = ShutRun {
-        end: RunEnd::Finished, steps: 0, world: world.clone(), invocations: vec![], inv_at: 0, ends_at: 0, reads_at: 0,
+        end: RunEnd::Finished, steps: 0, world: world.clone(), invocations: vec![], inv_at: 0, ends_at: 0, reads_at: 0, read_pos_at: 0,
         first_poll_ready: false, task_finished_at_request: false, woken_after_finish: false, final_poll_ready: false,
     };
     let mut steps = 0usize;
@@ -91,6 +93,7 @@ fn run_with_shutdown(c: &ConnCase, b: &Built, shutdown_at: usize) -> Result<Shut
                 let w = world.lock().unwrap();
                 out.ends_at = complete_ends(&w.log, &ids);
                 out.reads_at = w.read_calls;
+                out.read_pos_at = w.read_pos;
             }
             out.task_finished_at_request = task.finished();
             let mut f = Box::pin(runner.take().unwrap().shutdown());
@@ -152,7 +155,12 @@ fn check_shutdown(c: &ConnCase, b: &Built, m: &ConnModel, k: usize) -> Result<(b
     }
     vensure!(r.invocations.len() == r.inv_at, "c14-handler-started-after-shutdown", "{ctx} {} handler invocation(s) began after the request", r.invocations.len() - r.inv_at);
     let in_flight = r.inv_at > r.ends_at && r.invocations.get(r.inv_at - 1).is_some_and(|i| i.returned.as_ref().map_or(true, |x| x.is_ok()));
-    if !in_flight && !r.task_finished_at_request {
+    // "idle connections ... stop without reading further": a connection is idle when no request
+    // is being completed - no handler in flight, and nothing of the last invoked request left to
+    // take from the transport (finishing a request may include skipping the rest of its input,
+    // before or after its EndRequest)
+    let draining = r.inv_at > 0 && r.inv_at == r.ends_at && r.read_pos_at < b.offs[b.spans[r.inv_at - 1].3];
+    if !in_flight && !draining && !r.task_finished_at_request {
         vensure!(w.read_calls == r.reads_at, "c14-read-after-shutdown", "{ctx} no request was in flight, yet the connection task read from the transport {} more time(s)", w.read_calls - r.reads_at);
     }
     // every invoked request is complete per the connection model
